@@ -41,3 +41,30 @@ func qRenamedImport(s, sub string) bool { return str.Index(s, sub) >= 0 }
 func qRawMessage(w io.Writer, raw json.RawMessage) {
 	w.Write([]byte(raw))
 }
+
+// Generic types in the positions typeUnparen looks at, and multi-value re-assignments.
+type qBox[T any] struct{ v T }
+
+func (b *qBox[T]) Get() T { return b.v }
+
+type qPair[K comparable, V any] struct {
+	k K
+	v V
+}
+
+func qGenericPointerConv(p *qBox[int]) *qBox[int] { return (*qBox[int])(p) }
+
+func qGenericMethodExpr() func(*qBox[int]) int { return (*qBox[int]).Get }
+
+func qGenericPairConv(p *qPair[string, int]) *qPair[string, int] { return (*qPair[string, int])(p) }
+
+func qGenericParenType(x qBox[int]) qBox[int] { return x }
+
+func qMultiReassign(w io.Writer, b []byte) (int, error) {
+	var n int
+	var err error
+	if n, err = w.Write(b); err != nil {
+		return 0, err
+	}
+	return n, nil
+}
